@@ -14,4 +14,4 @@ if __name__ == "__main__":
     with Pool(min(16, len(cases))) as pool:
         for kind, name, err, by in pool.map(regress.work, cases):
             al = {p: v for p, v in by.items() if v}
-            print("%s: %s" % (name, err or (json.dumps(al, indent=1)[:3000] if al else "silent")))
+            print("%s: %s" % (name, err or ((json.dumps(al, indent=1) if __import__("os").environ.get("FULL") else json.dumps(al, indent=1)[:3000]) if al else "silent")))
